@@ -286,6 +286,19 @@ def mask_cases(ctx, tier, flags=True, dup=False, include_posonly=False):
         plan = [(small, range(len(small)), True), (U, chosen, False)]
     else:
         plan = [(U, range(len(U)), True)]
+    # longer parameter lists (4-5 named parameters: several positional-only ones followed by several
+    # positional-or-keyword ones cannot occur among 3): a seeded sample
+    U4 = [p for p in sigs.U(('a', 'b', 'c', 'd'), 4, stars=sigs.STARS2[:1]) if sum(1 for x in p if x[1] in (PO, PK)) >= 3]
+    big = []
+    for _ in range({'quick': 50, 'thorough': 1200}[tier]):
+        p = rnd.choice(U4)
+        if rnd.random() < 0.5 and not any(x[0] == 'e' for x in p):
+            # a fifth, defaulted positional-or-keyword parameter after the last positional one
+            k = max(i for i, x in enumerate(p) if x[1] in (PO, PK)) + 1
+            if all(x[2] is not None or x[1] not in (PO, PK) for x in p[k:]):
+                p = p[:k] + (('e', PK, '5', None),) + p[k:]
+        big.append(p)
+    plan.append((big, range(len(big)), False))
     idx = 0
     for space, indexes, exhaustive in plan:
         done = True
